@@ -474,8 +474,7 @@ def r7_content_addressed(ctx):
                 f'the uploaded payload {show(payload, limit=100)} does not derive from the data hashed for its location {show(locterm, limit=100)}',
             )
             if enc and hit:
-                x = hit[0]
-                encs = find(payload, lambda y: y[0] == 'call' and y[1][0] == 'attr' and y[1][2] == 'encrypt' and y[2] and y[2][0] == x)
+                encs = [y for x in hit for y in find(payload, lambda y: y[0] == 'call' and y[1][0] == 'attr' and y[1][2] == 'encrypt' and y[2] and y[2][0] == x)]
                 ctx.check(
                     bool(encs),
                     'C02.R7',
